@@ -184,7 +184,7 @@ func init() {
 			func(s *e1.Stats) bool { return len(s.Kinds) >= 5 && len(s.Accepted) >= 1 && distinctReasons(s) >= 3 })
 		reproDeferredCrossing(c, a)
 		partIntegrityStorm(c, a)
-		partStepThrough(c, a, []string{"compadd-vs-compadd"})
+		partStepThrough(c, a, []string{"compadd-vs-compadd", "join", "entityadd"}) // (every request is answered: nothing wedges)
 		partSignedLatency(c, a) // (a refused request in the middle of a measurement changes nothing)
 		partReceiptAnswers(c, a)
 		return a.finish(c)
